@@ -1,19 +1,54 @@
 """C12 - FindService is answered only by matching, ready instances, by unicast, in time."""
-from .. import scen, stackprop
+import someip.config as C
+
+from .. import conv, scen, stackprop
 
 CODES = {1: "number of unicast answers differs from the number of FindService entries a ready, matching instance had to answer",
          2: "an answer was sent outside the allowed window or to somebody who did not ask", 3: "an answer differs from the instance's configured offer", 98: "a transmitted datagram did not decode"}
+
+
+SHARED = [C.Service(0x1111, 1, 1, 7), C.Service(0x1111, 1, 2, 7), C.Service(0x1111, 1, 1, 8), C.Service(0x1111, 2, 1, 7)]
+SHARED_FILTERS = [C.Service(0x1111, 1), C.Service(0x1111, 1, 0xFF, 7), C.Service(0x1111, 1, 1), C.Service(0x1111, 0xFFFF, 2),
+                  C.Service(0x1111, 1, 2, 7), C.Service(0x1111), C.Service(0x1111, 2), C.Service(0x1111, 1, 1, 8)]
+
+
+def shared_ids_scenario(r):
+    """Instances that share service id AND instance id and differ only in their versions: a FindService naming the instance
+    and wildcarding a version must be answered by every one of them."""
+    T = scen.T
+    cfg = list(scen.timings(r))
+    n = r.choice([2, 3, 3, 4])
+    svcs = r.sample(SHARED, n)
+    insts = [(i + 1, conv.s_service(s), []) for i, s in enumerate(svcs)]
+    d0 = r.choice([cfg[0], cfg[1]])
+    drr = r.choice([cfg[2], cfg[3]])
+    d = r.choice([d0, drr])
+    draws = [d] * 64
+    d0 = max(cfg[0], min(cfg[1], d))
+    events = [(0, (1, [17, i + 1])) for i in range(n)] + [(0, (1, [0]))]
+    peers = {a: scen.Peer(a) for a in (1, 2)}
+    raw = []
+    for _ in range(r.randint(1, 5)):
+        t = d0 + r.choice([1, cfg[5], r.randrange(1, 3 * T)])
+        a = r.choice([1, 2])
+        raw.append((t, a, r.random() < 0.4, r.choice(SHARED_FILTERS)))
+    if r.random() < 0.3:
+        events.append((d0 + r.randrange(1, 2 * T), (1, [18, r.randint(1, n), True])))
+    for t, a, mc, f in sorted(raw, key=lambda x: x[0]):
+        events.append((t, (0, a, mc, peers[a].datagram([f.create_find_entry(3)], mc))))
+    events.sort(key=lambda x: x[0])
+    return dict(cfg=tuple(cfg), insts=insts, draws=draws, events=events, end=d0 + 4 * T, rev=r.random() < 0.3, fuel=20000)
 
 
 def run(ctx):
     r = ctx.rng
     quick = ctx.tier == "quick"
     ctx.rule = ("FindService entries over ids/versions incl. every wildcard combination (6 filters + concrete services), unicast and multicast, at any instant of the "
-                "offer lifecycle (initial wait, repetition, cyclic, just stopped, stopped non-cyclic), 1-3 instances, request-response windows {0, [10ms,50ms]}, "
+                "offer lifecycle (initial wait, repetition, cyclic, just stopped, stopped non-cyclic), 1-4 instances incl. instances sharing service and instance id and differing only in a version, request-response windows {0, [10ms,50ms]}, "
                 "collection timeouts {0,1 tick,5 ms}; complete traces compared with the model; implementation trace judged by check_C12")
     ctx.assumptions = ["answer clauses are judged when the oracle draws are all equal; a FindService at the very instant of a lifecycle change is not judged (order-dependent)"]
     n = 300 if quick else 10000
-    scs = stackprop.corpus_scenarios("C12") + [scen.server_scenario(r) if k % 2 else scen.lifecycle_scenario(r) for k in range(n)]
+    scs = stackprop.corpus_scenarios("C12") + [shared_ids_scenario(r) if k % 3 == 2 else (scen.server_scenario(r) if k % 2 else scen.lifecycle_scenario(r)) for k in range(n)]
     stackprop.run_scenarios(ctx, scs, 3012, CODES, what="find answers")
 
 
